@@ -243,13 +243,13 @@ def _regex_of(ctx, fn, attr_expr):
         for st in c.body:
             if isinstance(st, ast.Assign) and any(isinstance(t, ast.Name) and t.id == name for t in st.targets):
                 v = st.value
-                if isinstance(v, ast.Call) and norm(v.func) == "re.compile" and v.args and isinstance(v.args[0], ast.Constant):
-                    flags = 0
-                    import re
-                    for a in list(v.args[1:]) + [k.value for k in v.keywords if k.arg == "flags"]:
-                        for nm in norm(a).replace("re.", "").split("|"):
-                            flags |= getattr(re, nm.strip(), 0)
-                    return v.args[0].value, flags, v
+                from ..core.consts import RegexVal, NotConst
+                try:
+                    rv = ctx.folder.ev(v, c._module)
+                except NotConst:
+                    rv = None
+                if isinstance(rv, RegexVal):
+                    return rv.pattern, rv.flags, v
     return None
 
 
@@ -546,7 +546,8 @@ def rule_N4(ctx):
                     rg = st
         if rg is None:
             raise AnalysisError("N4", f"{ST}:Image.{name}", "regex not found")
-        pat = rg.value.args[0].value
+        from .util import regex_value
+        pat, _fl = regex_value(ctx, rg.value, ctx.prog.module(ST), "N4", f"{ST}:Image.{name}")
         if want == "negated":
             surv = rx.negated_class_plus(pat)
             ok = surv is not None and surv <= SAFE_EXPORT
@@ -933,7 +934,8 @@ def rule_N8(ctx):
     ctx.ob("N8", tr, "descending below a leaf raises ErrorNotTraversable (handled as not found)", ok, "", inst="leaf")
     # tokenising
     tk = ctx.prog.class_assigned(ST, "Traversable", "_TOKENIZE_PATH_REGEX", "N8")
-    pat = tk.args[0].value if isinstance(tk, ast.Call) and tk.args and isinstance(tk.args[0], ast.Constant) else None
+    from .util import regex_value
+    pat, _fl = regex_value(ctx, tk, ctx.prog.module(ST), "N8", f"{ST}:Traversable._TOKENIZE_PATH_REGEX")
     ok = False
     if pat is not None:
         import re._constants as sc
